@@ -321,4 +321,45 @@ def Expr.subst {n : Nat} (L : ℕ → Expr n) : Expr n → Expr n
   | .slice idx e => .slice idx (e.subst L)
   | .l2norm r dim e => .l2norm r dim (e.subst L)
 
+/-! ### smooth-domain conditions as data (`Dom`, Model.lean), real reading -/
+
+def Dom.holdsR : Dom → ℝ → ℝ → Prop
+  | .all, _, _ => True
+  | .pos, x, _ => 0 < x
+  | .xne0, x, _ => x ≠ 0
+  | .cne0, _, c => c ≠ 0
+  | .cpos, _, c => 0 < c
+  | .absLt1, x, _ => -1 < x ∧ x < 1
+  | .gt1, x, _ => 1 < x
+  | .cosNe0, x, _ => Real.cos x ≠ 0
+  | .powC, x, c => x ≠ 0 ∨ 1 ≤ c
+  | .absNeC, x, c => |x| ≠ c
+  | .neC, x, c => x ≠ c
+  | .safePow, _, _ => False   -- three parameters, see `rule_sound_safe_power`; not a node of `Expr`
+  | .never, _, _ => False
+
+/-- a table entry: rule as generated, the operation it stands for, its domain condition -/
+abbrev Entry := Rule × (ℝ → ℝ → ℝ) × Dom
+
+/-- Every rule node is an entry of the (verified) tables and the values arriving at it satisfy the entry's domain
+    condition; every `l2_norm` group is above the tolerance.  Only inequalities between numbers computed from the
+    input point — what `Tree.domF` evaluates in the driver. -/
+def Expr.InDom {n : Nat} (T1 T2 : List Entry) (NR : NormRule) : Expr n → (ℕ → ℕ → ℝ) → Pt n → Prop
+  | .var _, _, _ => True
+  | .ref _, _, _ => True
+  | .map1 r F c e, ρ, X => e.InDom T1 T2 NR ρ X ∧ ∃ d, (r, F, d) ∈ T1 ∧ ∀ i, d.holdsR (e.den ρ X i) (c i)
+  | .map2 r F e₁ e₂, ρ, X => e₁.InDom T1 T2 NR ρ X ∧ e₂.InDom T1 T2 NR ρ X ∧
+      ∃ d, (r, F, d) ∈ T2 ∧ ∀ i, d.holdsR (e₁.den ρ X i) (e₂.den ρ X i)
+  | .matmul _ _ e, ρ, X => e.InDom T1 T2 NR ρ X
+  | .slice _ e, ρ, X => e.InDom T1 T2 NR ρ X
+  | .l2norm r dim e, ρ, X => e.InDom T1 T2 NR ρ X ∧ r = NR ∧
+      ∀ i, l2tol < norm2 (fun k : Fin dim => e.den ρ X (dim * i + k))
+
+def letsInDom {n : Nat} (T1 T2 : List Entry) (NR : NormRule) (X : Pt n) : List (Expr n) → ℕ → (ℕ → ℕ → ℝ) → Prop
+  | [], _, _ => True
+  | d :: ds, k, ρ => d.InDom T1 T2 NR ρ X ∧ letsInDom T1 T2 NR X ds (k + 1) (Function.update ρ k (d.den ρ X))
+
+def Prog.InDom {n : Nat} (T1 T2 : List Entry) (NR : NormRule) (p : Prog n) (X : Pt n) : Prop :=
+  letsInDom T1 T2 NR X p.lets 0 Prog.env0 ∧ p.body.InDom T1 T2 NR (envDen X p.lets 0 Prog.env0) X
+
 end PorepyVerif.C01
